@@ -436,13 +436,13 @@ func otherParsers(rep *kit.Report, base string) {
 	}()
 	defer pln.Close()
 	logf := filepath.Join(base, "access.log")
-	cf := fmt.Sprintf("a.test:8080 {\n\troot %s\n\tpush\n\tlog / %s \"{method} {uri} {>X} {~c} {?q} {path} {query} {fragment} {request} {dir} {file} {hostonly} {port} {when_unix} {mitm} {tls_protocol} {server_port} {rewrite_uri} {>Referer} {remote} {uri_escaped} {path_escaped} {query_escaped} {request_id} {latency_ms}\"\n\tbasicauth /auth u p\n\tfastcgi /f unix:%s\n\tproxy /p unix:%s\n\tverif_probe\n}\n", root, logf, fsock, psock)
+	cf := fmt.Sprintf(":8080 {\n\troot %s\n\tpush\n\tlog / %s \"{method} {uri} {>X} {~c} {?q} {path} {query} {fragment} {request} {dir} {file} {hostonly} {port} {when_unix} {mitm} {tls_protocol} {server_port} {rewrite_uri} {>Referer} {remote} {uri_escaped} {path_escaped} {query_escaped} {request_id} {latency_ms}\"\n\tbasicauth /auth u p\n\tfastcgi /f unix:%s\n\tproxy /p unix:%s\n\tverif_probe\n}\n:8081 {\n\troot %s\n\tfastcgi / unix:%s\n}\n", root, logf, fsock, psock, root, fsock)
 	l, err := kit.Load(cf, filepath.Join(base, "Casketfile"))
 	if err != nil {
 		rep.Broken("load: %v\n%s", err, cf)
 	}
 	defer l.Close()
-	srv := l.Server("")
+	srv := l.Server("8080")
 	serve := func(kind, raw string) {
 		req, err := kit.Req(raw)
 		if err != nil {
@@ -493,6 +493,30 @@ func otherParsers(rep *kit.Report, base string) {
 			}
 		}
 	}
+	// Host header values (the site is a catch-all, so every one of them reaches the handlers and the {host*}/{port} placeholders)
+	for _, hv := range []string{"[::1", "[", "[:8080", "[]", "[]:80", "[::1]", "[::1]:8080", "[::1%25eth0]:80", "a.test:", ":8080", ":", "a.test:x", "a.test:8080:9", "a..test", ".", "%", "a.test:99999999999", "A.TEST", "\tb"} {
+		serve("host-header", "GET /x?q=1 HTTP/1.1\r\nHost: "+hv+"\r\n\r\n")
+		serve("host-header", "GET /auth/x HTTP/1.1\r\nHost: "+hv+"\r\nAuthorization: Basic dTpw\r\n\r\n")
+	}
+	rep.Class("host-headers")
+	// request targets that leave the path empty or odd, on a site that hands everything to FastCGI (no ext/split preset)
+	srvF := l.Server("8081")
+	for _, tgt := range []string{"http://x", "http://x?q=1", "*", "http://x/", "/", "//", "/.", "/%00", "http://x/%2e%2e"} {
+		for _, m := range []string{"GET", "OPTIONS", "POST"} {
+			req, err := kit.Req(m + " " + tgt + " HTTP/1.1\r\nHost: x\r\nContent-Length: 0\r\n\r\n")
+			if err != nil {
+				rep.Class("rejected-by-net/http")
+				continue
+			}
+			before := kit.Log.Panics.Load()
+			_, pv, _ := kit.ServeReq(srvF, req)
+			rep.Eval(1)
+			if pv != nil || kit.Log.Panics.Load() != before {
+				rep.Violation("C19/request-target/panic-in-handler", fmt.Sprintf("%s %s on a `fastcgi /` site: the handler panicked (pv=%v)", m, tgt, pv), c19case{"request-target", m + " " + tgt, "panic", ""})
+			}
+		}
+	}
+	rep.Class("request-targets")
 	for _, a := range []string{"Basic", "Basic ", "Basic =", "Basic dTpw", "Basic dTo=", "Basic Og==", "Basic %%%", "Bearer x", "basic dTpw", "Basic dTpw dTpw", "Basic " + strings.Repeat("A", 5000)} {
 		serve("basicauth-header", kit.Get("GET", "/auth/x", "a.test:8080", "Authorization: "+a))
 	}
